@@ -15,6 +15,40 @@ def pretty_cand(c):
     if t == "range": return f"Range({b(c['lo'])} .. {b(c['hi'])}{', +null' if c['nullIncl'] else ''})"
     return str(t)
 
+
+def _body(path, name):
+    """Text of a top-level definition `name(..) ==` up to the next blank line, whitespace-normalised."""
+    import re
+    s = open(path).read()
+    m = re.search(r"^" + re.escape(name) + r"\([^)]*\) ==.*?(?=\n\S|\n\s*\n)", s, re.S | re.M)
+    return " ".join(m.group(0).split()) if m else None
+
+def range_laws(res, wd):
+    """Unbounded companion of MC_Candidates: spec/RangeLaws.tla proves, with TLAPS and for all integers, that the transcription of the
+    range arithmetic of candidates.rs is exact.  The definitions proved about must be the ones in Candidates.tla (textual comparison)."""
+    import subprocess, re, shutil
+    spec = os.path.join(ROOT, "spec")
+    same = all(_body(os.path.join(spec, "Candidates.tla"), n) is not None and
+               _body(os.path.join(spec, "Candidates.tla"), n) == _body(os.path.join(spec, "RangeLaws.tla"), n) for n in ("RangeIntersect", "Degenerate"))
+    note = {"definitions_identical_to_Candidates_tla": same}
+    if not same: res.drift.append("RangeLaws.tla: RangeIntersect / Degenerate differ textually from Candidates.tla - the TLAPS theorems are about other definitions")
+    if shutil.which("tlapm") is None:
+        note["status"] = "tlapm not installed"
+    else:
+        cache = os.path.join(wd, "tlaps"); os.makedirs(cache, exist_ok=True)
+        try:
+            r = subprocess.run(["timeout", "400", "tlapm", "--threads", "8", "--cache-dir", cache, "RangeLaws.tla"], cwd=spec, capture_output=True, text=True)
+            out = r.stdout + r.stderr
+            m = re.search(r"All (\d+) obligations? proved", out)
+            if m: note["status"] = "proved"; note["obligations_proved"] = int(m.group(1))
+            else:
+                note["status"] = "incomplete"; note["tail"] = out[-600:]
+                res.drift.append("RangeLaws.tla: TLAPS did not discharge every obligation (time-out or prover failure); the bounded TLC check still decides C06")
+        except Exception as e:
+            note["status"] = f"not run: {e}"
+    note["theorems"] = ["IntersectClosed", "IntersectExactInt", "NullLaw", "DegenerateEmpty", "ExcludeExactInt", "PointRange"]
+    res.notes["tlaps_range_laws_unbounded_integers"] = note
+
 # ------------------------------------------------------------------ C06
 def check_C06(tier, seed):
     res = Result("C06", tier, seed, "model_checking")
@@ -49,6 +83,7 @@ def check_C06(tier, seed):
                        "with and without null) x 3 concretisations (signed integers at i64::MIN/-1/1/i64::MAX, mixed signed/unsigned beyond i64::MAX, strings); TLC proves the transcription of candidates.rs exact on "
                        "the model, then every ordered pair / (candidate, value) is run through the real intersect / normalize / exclude_single_value / contains (via the __verif hooks) and TLC judges membership of every probe.")
     res.notes["syntactic_drift_vs_transcription"] = drift
+    range_laws(res, wd)
     if drift: res.drift.append(f"{drift} implementation results differ syntactically from Candidates.tla's transcription while containing the same values")
     return res
 
